@@ -85,3 +85,58 @@ func (t *TombstoneGC) VerifMaxHint() uint64 {
 	}
 	return m
 }
+
+// VerifUpDown is an exported view of a mesh-topology row.
+type VerifUpDown struct {
+	Upstream, Downstream string
+	Refs                 []string
+}
+
+func (s *Store) VerifMeshTopology() []VerifUpDown {
+	tx := s.db.ReadTxn()
+	defer tx.Abort()
+	iter, err := tx.Get(tableMeshTopology, indexID)
+	if err != nil {
+		panic(err)
+	}
+	var out []VerifUpDown
+	for raw := iter.Next(); raw != nil; raw = iter.Next() {
+		m := raw.(*upstreamDownstream)
+		r := VerifUpDown{Upstream: m.Upstream.Name, Downstream: m.Downstream.Name}
+		for k := range m.Refs {
+			r.Refs = append(r.Refs, k)
+		}
+		out = append(out, r)
+	}
+	return out
+}
+
+// VerifFreeVIPs lists the free-virtual-ips table.
+func (s *Store) VerifFreeVIPs() []FreeVirtualIP {
+	tx := s.db.ReadTxn()
+	defer tx.Abort()
+	iter, err := tx.Get(tableFreeVirtualIPs, indexID)
+	if err != nil {
+		panic(err)
+	}
+	var out []FreeVirtualIP
+	for raw := iter.Next(); raw != nil; raw = iter.Next() {
+		out = append(out, raw.(FreeVirtualIP))
+	}
+	return out
+}
+
+// VerifTable returns the raw rows of one table.
+func (s *Store) VerifTable(name string) []interface{} {
+	tx := s.db.ReadTxn()
+	defer tx.Abort()
+	iter, err := tx.Get(name, indexID)
+	if err != nil {
+		panic(err)
+	}
+	var out []interface{}
+	for raw := iter.Next(); raw != nil; raw = iter.Next() {
+		out = append(out, raw)
+	}
+	return out
+}
